@@ -78,6 +78,11 @@ def decode(v):
             return float(s.rstrip("?"))
         if "opaque" in v:
             return Opaque(v["opaque"])
+        if "new" in v:
+            # an object of a named class of the tree under test, built by its own (argument-free) constructor
+            # (a subclass whose instances survive the harness's pre-state deepcopy by identity, so old(xs) and xs can be compared element by element)
+            base = SPEC_NAMES[v["new"]]
+            return type(base.__name__, (base,), {"__deepcopy__": lambda self, memo: self})()
         if "?" in v:
             return None
     if isinstance(v, list):
@@ -85,6 +90,7 @@ def decode(v):
     return v
 
 
+SPEC_NAMES = {}
 DEFAULTS = {"int": 0, "nat": 0, "bool": False, "str": "", "real": 0.0, "none": None}
 _OPQ = [0]
 
@@ -404,6 +410,7 @@ def run_case(job, case, builder, unit_cls, fn_name, params, kwonly):
     macros = {k: tuple(v) for k, v in job.get("macros", {}).items()}
     roots = set(env.keys())
     senv = spec_env(tuple(case.get("window", job.get("int_window", [-2, 14]))))
+    senv.update(SPEC_NAMES)
     out = {"id": case.get("id"), "clauses": {}}
     # precondition
     try:
@@ -530,6 +537,9 @@ def main():
             ns = {"importlib": importlib}
             exec(src, ns)
             SPEC_FUNS[nm] = ns["fun"]
+        for nm, dotted in job.get("spec_names", {}).items():
+            pm, pc = dotted.rsplit(".", 1)
+            SPEC_NAMES[nm] = getattr(importlib.import_module(pm), pc)
         builder = Builder(job)
         if cn:
             builder.class_modules.setdefault(cn, modname)
